@@ -81,7 +81,11 @@ def gen_case(rng, tier, i):
     vector = op in ("diff", "interp", "min", "max") and rng.random() < 0.35
     if op.startswith("ufunc2"):
         vector = False
-    return {"kind": "simple", "pos_all": pos_all, "bw2": bw2, "sig_order": sig_order, "vector": vector, "layout": {"axes": layout.axes, "extra": layout.extra}, "axis": ax["name"],
+    core = [ax["coords"][frm]] if op == "ufunc" else [a["coords"][pos_all[a["name"]]] for a in layout.axes]
+    dask_mode = "allowed"
+    if op in ("ufunc", "ufunc2") and all(len(chunks[d]) == 1 for d in core) and rng.random() < 0.5:
+        dask_mode = "parallelized"        # xarray's own blockwise mode; needs unchunked core dimensions
+    return {"kind": "simple", "dask_mode": dask_mode, "pos_all": pos_all, "bw2": bw2, "sig_order": sig_order, "vector": vector, "layout": {"axes": layout.axes, "extra": layout.extra}, "axis": ax["name"],
             "from": frm, "to": rng.choice(tos), "dims": [d for d, _ in dims], "chunks": {k: list(v) for k, v in chunks.items()},
             "op": op, "boundary": rng.choice(["fill", "extend", "periodic"]), "seed": rng.randrange(1 << 30)}
 
@@ -169,12 +173,13 @@ def run_case(case, lazy):
             na, nb = x.shape[-2] - la - ra, x.shape[-1] - lb - rb
             return x[..., 0:na, 0:nb] + 2.0 * x[..., la + ra:la + ra + na, lb + rb:lb + rb + nb]
         return grid.apply_as_grid_ufunc(f2, da, axis=[list(order)], signature=sig, boundary_width=bw or None,
-                                        dask="allowed" if lazy else "forbidden",
+                                        dask=case.get("dask_mode", "allowed") if lazy else "forbidden",
                                         map_overlap=(op == "ufunc2_overlap") and lazy)
     a = layout.axis(ax)
     sig = f"(Q:{case['from']})->(Q:{case['from']})"
     return grid.apply_as_grid_ufunc(lambda x: x * 2.0 + 1.0, da, axis=[[ax]], signature=sig,
-                                    boundary_width={"Q": (0, 0)}, dask="allowed" if lazy else "forbidden",
+                                    boundary_width={"Q": (0, 0)},
+                                    dask=(case.get("dask_mode", "allowed") if op == "ufunc" else "allowed") if lazy else "forbidden",
                                     map_overlap=(op == "ufunc_overlap") and lazy)
 
 
